@@ -812,7 +812,17 @@ class Body:
         t = self.blocks[bi]["term"]
         if t["k"] != "switch":
             return None
-        return (self.term_operand(t["discr"]), [(int(a[0]), a[1]) for a in t["arms"]], t["otherwise"], t["dty"])
+        arms = [(int(a[0]), a[1]) for a in t["arms"]]
+        # `let Some(v) = opt else { .. }` / `if let Ok(v) = r`: a switch on the discriminant of a two-variant enum that lists one variant; the other one is the `otherwise`
+        if len(arms) == 1 and arms[0][0] in (0, 1) and t["otherwise"] is not None and t["dty"] == "isize" and t["discr"].get("k") in ("copy", "move") and not t["discr"]["pl"]["p"]:
+            dl = t["discr"]["pl"]["l"]
+            for st in reversed(self.blocks[bi]["stmts"]):
+                if st["k"] == "assign" and not st["pl"]["p"] and st["pl"]["l"] == dl:
+                    if st["rv"]["k"] == "discr" and not st["rv"]["pl"]["p"] and \
+                            re.match(r"^(std|core)::(option::Option|result::Result|ops::ControlFlow|ops::control_flow::ControlFlow)<", self.local_ty(st["rv"]["pl"]["l"]) or ""):
+                        arms = sorted(arms + [(1 - arms[0][0], t["otherwise"])])
+                    break
+        return (self.term_operand(t["discr"]), arms, t["otherwise"], t["dty"])
 
     def branch_on_call(self, call):
         """bool_edges of the branch that tests the result of `call`: normally the block the call returns to; when the call sits in an expanded helper the
